@@ -1555,3 +1555,21 @@ mut("c03-try-fill-unguarded-split", "C03", "src/parser/request.rs",
             (head, $inp) = $inp.split_at_mut(needed);
             $vec.extend(&*head);""",
     "R3.11/parse_buffered", "a pair's length header split across two records and then a short chunk: split_at_mut panics (seed C12-i)")
+
+# ---- sweep y (additive pull requests) ----------------------------------------------------------------------------------------------------
+mut("x-c13-try-get-token-own-semaphore", "C13", "src/async_io/mod.rs",
+    """        let sg = self.sema.try_acquire_arc()?;""",
+    """        let sg = Arc::new(async_lock::Semaphore::new(self.config.max_conns.get())).try_acquire_arc()?;""",
+    "R13.1/token-field[_sg]", "the non-blocking sibling of get_token takes its permit from a semaphore of its own", base="y4-r2")
+mut("x-c13-from-config-wrong-size", "C13", "src/async_io/mod.rs",
+    """        let sema = async_lock::Semaphore::new(config.max_conns.get());
+        let stop = event_listener::Event::new();
+        Self { config, sema: sema.into(), stop, wg: WaitGroup::new() }""",
+    """        let sema = async_lock::Semaphore::new(config.buffer_size);
+        let stop = event_listener::Event::new();
+        Self { config, sema: sema.into(), stop, wg: WaitGroup::new() }""",
+    "R13.2/semaphore-size", "the second constructor sizes the semaphore by the buffer size", base="y4-r4")
+mut("x-c06-flags-form-stuck-not-reported", "C06", "src/parser/request.rs",
+    """        Yield { done: finished || stuck, output: &self.output }""",
+    """        Yield { done: finished, output: &self.output }""",
+    "R6.2/parse", "a stuck parser is latched but the call does not report done (flag form of y1-r8)", base="y1-r8")
